@@ -12,6 +12,8 @@
 -/
 import Lcapy.Model.CRat
 import Lcapy.Model.OnePort
+import Lcapy.Model.OnePortGuard
+import Lcapy.Model.OnePortNetlist
 import Lcapy.Spec.OnePortExec
 import Lcapy.Generated.Sections
 import Lcapy.Spec.Sections
@@ -210,12 +212,15 @@ def parseLines (s : Rat) : Nat → List String → Option (List (Option (Line Ra
       pure (a.line s :: t, rest)
 
 /-- physical L / T / Pi network built from general one-ports (Spec/Sections.lean with the element
-    relations given by the spec lines), witness supplied -/
-def physOK (kind : String) (ls : List (Option (Line Rat))) (w : Rat) (p : Spec.Port Rat) : Option Bool :=
+    relations given by the spec lines), witness supplied.  `out = true`: the one-port of a SERIES arm is drawn
+    with its + node at the output side (what `Series._net_make` does is read off the generated netlist by the
+    harness); the shunt arms always have + on the top rail. -/
+def physOK (kind : String) (out : Bool) (ls : List (Option (Line Rat))) (w : Rat) (p : Spec.Port Rat) : Option Bool :=
+  let ser (l : Option (Line Rat)) (v i : Rat) : Bool := if out then onLine l (-v) (-i) else onLine l v i
   match kind, ls with
-  | "L", [l1, l2] => some (onLine l1 (p.V1 - p.V2) p.I1 && onLine l2 p.V2 (p.I1 + p.I2))
-  | "T", [l1, l2, l3] => some (onLine l1 (p.V1 - w) p.I1 && onLine l2 w (p.I1 + p.I2) && onLine l3 (w - p.V2) (-p.I2))
-  | "Pi", [l1, l2, l3] => some (onLine l1 p.V1 (p.I1 - w) && onLine l2 (p.V1 - p.V2) w && onLine l3 p.V2 (p.I2 + w))
+  | "L", [l1, l2] => some (ser l1 (p.V1 - p.V2) p.I1 && onLine l2 p.V2 (p.I1 + p.I2))
+  | "T", [l1, l2, l3] => some (ser l1 (p.V1 - w) p.I1 && onLine l2 w (p.I1 + p.I2) && ser l3 (w - p.V2) (-p.I2))
+  | "Pi", [l1, l2, l3] => some (onLine l1 p.V1 (p.I1 - w) && ser l2 (p.V1 - p.V2) w && onLine l3 p.V2 (p.I2 + w))
   | _, _ => none
 
 instance (m : M2 Rat) (a b : Rat) (p : Spec.Port Rat) : Decidable (Spec.relBs m a b p) := by
@@ -237,14 +242,17 @@ def handleTP (toks : List String) : Option String :=
         | some (t, []) => let m := f t.B 1; s!"{m.a11} {m.a12} {m.a21} {m.a22}"
         | _ => "bad-tp"
       | _, _ => "bad-op"
-  | "tp2.phys" :: s :: kind :: n :: rest => some <| Id.run do
+  | "tp2.phys" :: s :: kind0 :: n :: rest => some <| Id.run do
+      -- kind = L | T | Pi, with the suffix `:out` when series arms have their + node at the output
+      let out := kind0.endsWith ":out"
+      let kind := if out then (kind0.dropEnd 4).toString else kind0
       match parseRat s, n.toNat? with
       | some s, some n =>
         match parseLines s n rest with
         | some (ls, [w, v1, i1, v2, i2]) =>
           match parseRat w, parseRat v1, parseRat i1, parseRat v2, parseRat i2 with
           | some w, some v1, some i1, some v2, some i2 =>
-            match physOK kind ls w ⟨v1, i1, v2, i2⟩ with
+            match physOK kind out ls w ⟨v1, i1, v2, i2⟩ with
             | some b => toString b
             | none => "bad-op"
           | _, _, _, _, _ => "bad-op"
@@ -304,6 +312,34 @@ def handle (toks : List String) : Option String :=
           match n.simplify with
           | .ok m => showNet numC m
           | .error e => "error:" ++ e.replace " " "_"
+  | "op.guard" :: s :: rest => some <| Id.run do
+      -- side conditions of every `_combine` that `simplify()` performs (hypothesis of C07.simplify_sound)
+      match parseRat s with
+      | none => "bad-op"
+      | some s =>
+        match parseTree numR s rest with
+        | none => "bad-tree"
+        | some n => toString (n.simpGuard s)
+  | "op.netlist" :: s :: rest => some <| Id.run do
+      -- the generated netlist on equipotential nodes (Model/OnePortNetlist.lean), port (1, 0), counter from 2:
+      -- `drawable ; T a b [m] val [ic] ; …`
+      match parseCRat s, parseRat s with
+      | some s, some sr =>
+        match parseTree numC s rest, parseTree numR sr rest with
+        | some n, some nr =>
+          let cs := (n.expandAll.make s 1 0 2).1
+          let o (x : Option CRat) : String := match x with | some v => toString v | none => "-"
+          let line (c : Lcapy.MNA.Cpt CRat) : String := match c with
+            | .R a b r => s!"R {a} {b} {r}"
+            | .Cap a b c v0 => s!"C {a} {b} {c} {o v0}"
+            | .Ind a b _ l i0 _ => s!"L {a} {b} {l} {o i0}"
+            | .V a b _ e => s!"V {a} {b} {e}"
+            | .I a b j => s!"I {a} {b} {j}"
+            | .Y a b y => s!"Y {a} {b} {y}"
+            | _ => "?"
+          toString nr.expandAll.drawable ++ " ; " ++ " ; ".intercalate (cs.map line)
+        | _, _ => "bad-tree"
+      | _, _ => "bad-op"
   | "op.norm" :: s :: rest => some <| Id.run do
       match parseCRat s with
       | none => "bad-op"
